@@ -152,6 +152,9 @@ HAND = [
                         ("k", [("d2", "gh_write", None), ("d1", "gh_read", None)])]),
     ("wcont_then_read", [("k", [("c1", "gh_write", None), ("d1", "gh_read", None)]),
                          ("k", [("d2", "gh_write", None), ("c1", "gh_read", None)])]),
+    ("wcont_reads_cont", [("k", [("u1", "gh_write", None), ("c3", "gh_read", None)])]),
+    ("wcont_reads_cont2", [("k", [("c3", "gh_inc", None), ("d1", "gh_read", None)]),
+                           ("k", [("c1", "gh_write", None), ("c3", "gh_read", None), ("u2", "gh_read", None)])]),
     ("builtin_between", [("k", [("u1", "gh_inc", None), ("c1", "gh_read", None)]), ("b", "setval_x", ["u2", "u1"]),
                          ("k", [("c3", "gh_inc", None), ("u2", "gh_read", ("cross", "e1"))])]),
 ]
